@@ -352,12 +352,13 @@ impl Builder {
         } else {
             None
         };
-        match node.create_block(*parent, ts, spec.txs.clone(), gt).await {
-            Ok(b) => Ok((b, node)),
-            Err(e) => {
+        match crate::panics::catch_async(node.create_block(*parent, ts, spec.txs.clone(), gt)).await {
+            Ok(Ok(b)) => Ok((b, node)),
+            Ok(Err(e)) => {
                 self.keep_producer(*parent, node);
                 Err(e)
             }
+            Err(p) => Err(format!("Block::create panicked: {} [{}]", p.message, p.signature())),
         }
     }
 
@@ -372,7 +373,15 @@ impl Builder {
         let (block, mut node) = self.produce(rng, parent, spec).await?;
         let h = self.store.put(&block, true, "honest");
         let bytes = self.store.get(&h).bytes.clone();
-        let r = node.add_bytes(&bytes).await;
+        let r = match crate::panics::catch_async(node.add_bytes(&bytes)).await {
+            Ok(r) => r,
+            Err(p) => {
+                // the producer node is in an unknown state: drop it
+                self.store.map.remove(&h);
+                self.store.order.retain(|x| x != &h);
+                return Err(format!("producer panicked on own block: {} [{}]", p.message, p.signature()));
+            }
+        };
         match r {
             Some(Added::Ok(true)) => {
                 self.keep_producer(h, node);
